@@ -2747,6 +2747,40 @@ def check_C17(ctx):
         if a != b:
             res.finding(f"def={nm};class=setpoll-resolves-wrong-mode",
                         f"SETPOLL parses a {defs.MODENAME[ent['mode']]} message as mode {field(a, 'mode') if a.startswith('ok') else a}", dict(op=lines[i][:300]))
+    # the same through the stream reader: a reader opened with msgmode=SETPOLL decides per frame, whatever came before
+    # it in the stream (other protocols, frames of the other mode)
+    goodf = [(meta[i][0], bytes.fromhex(lines[i].split()[4]), py[i + 1]) for i in range(0, len(lines), 2)
+             if py[i + 1].startswith("ok ") and py[i] == py[i + 1] and len(lines[i]) < 3000]   # frames the static parse resolves rightly
+    for _ in range(ctx.n(60, 600)):
+        if not goodf:
+            break
+        picks = [rng.choice(goodf) for _ in range(rng.randrange(1, 5))]
+        parts, expect = [], []
+        for ent, f, truth in picks:
+            r = rng.random()
+            if r < 0.4:
+                parts.append(nmea_frame(rng))
+            elif r < 0.6:
+                parts.append(rtcm_frame(rng, rng.choice([8, 19, 40])))
+            parts.append(f)
+            expect.append((ent, f))
+        stream = b"".join(parts)
+        try:
+            got = [(raw, parsed) for raw, parsed in UBXReader(io.BytesIO(stream), msgmode=3, quitonerror=0, protfilter=2)]
+        except Exception as e:  # noqa
+            res.finding(f"class=setpoll-stream-raises-{canon.excname(e)}", "reading a stream of generated SET/POLL frames with msgmode=SETPOLL raised", dict(stream=stream.hex()[:4000]))
+            continue
+        res.count()
+        want = []
+        for ent, f in expect:
+            try:
+                want.append((f, canon.msgdump(UBXReader.parse(f, msgmode=ent["mode"]))))
+            except Exception:  # noqa
+                want.append((f, None))
+        have = [(raw, canon.msgdump(p) if p is not None else None) for raw, p in got]
+        if have != want:
+            res.finding("class=setpoll-stream-differs", "a reader opened with msgmode=SETPOLL delivers a generated SET/POLL frame differently from parsing it in its own mode",
+                        dict(stream=stream.hex()[:4000], modes=[e["mode"] for e, _ in expect]))
     # getinputmode itself: exhaustive over class/id × total length (it reads nothing else)
     il = []
     step = 1 if ctx.tier == "thorough" else 7
